@@ -78,6 +78,10 @@ def corpus():
           # a sheared "grid" at map-projection magnitudes: each row within numpy.allclose's tolerance of the NEXT one, the last far from the first
           mk_make([[524288.0 + x + 2.0 * i for x in (0.0, 10.0, 20.0)] for i in range(6)], [[4194304.0 + 10.0 * i] * 3 for i in range(6)], [],
                   [[[float(3 * i + j) for j in range(3)] for i in range(6)]], ["a"], ("northing", "easting"), None, False, "bad-drift"),
+          # numpy.allclose(a, b) is |a - b| <= atol + rtol |b| with b the FULL array: a row that differs from the first by 0.01000006 at 1000 is
+          # (just) a meshgrid row, by 5e-8 on either side of where the test would flip if the two arguments changed places
+          mk_make([[1000.0, 2000.0, 4000.0], [1000.01000006, 2000.0, 4000.0]], N, [], [d], ["a"], ("northing", "easting"), None, False, "meshgrid-within-relative-tolerance"),
+          mk_make(E, [[10.0, 10.0, 10.0], [2000.0, 2000.02000012, 2000.0]], [], [d], ["a"], ("northing", "easting"), None, False, "meshgrid-within-relative-tolerance"),
           # a LINE of points stored as 2-D arrays with a single row / a single column: a meshgrid only if the other coordinate is constant along it
           mk_make([[1.0, 2.0, 4.0, 5.0]], [[10.0, 11.0, 12.0, 13.0]], [], [[[0.0, 1.0, 2.0, 3.0]]], ["a"], ("northing", "easting"), None, False, "not-meshgrid-line"),
           mk_make([[1.0], [2.0], [4.0]], [[10.0], [20.0], [30.0]], [], [[[0.0], [1.0], [2.0]]], ["a"], ("northing", "easting"), None, False, "not-meshgrid-line"),
